@@ -39,3 +39,33 @@ Theorem c07_response : forall so cfgs h k,
   hget k (response_headers so cfgs h) = flat_values k (hget k h ++ derived so cfgs k).
 Proof. exact response_headers_spec. Qed.
 Print Assumptions c07_response.
+
+(* ---- the legacy flags (Model/LegacyHeaders.v transcribes LegacyHeaders.getRequestHeaders / getResponseHeaders;
+   compared with the real conversion for all 2 x 512 flag combinations on every run).  The request list carries
+   the basic Authorization entry exactly when pass-basic-auth is set with a password and the bearer one exactly
+   when pass-authorization-header is set; the response list likewise for set-basic-auth / set-authorization-header;
+   client values are preserved under every configured request name iff skip-auth-strip-headers is off. *)
+From V.Model Require Import LegacyHeaders.
+From V.Proofs Require Import LegacyHeadersProofs.
+From Coq Require Import String.
+
+Theorem c07_legacy_request_authorization : forall l,
+  map h_values (filter is_authorization (legacy_request_headers l)) =
+  (if l_pass_basic_auth l && negb (match l_basic_auth_password l with [] => true | _ => false end)
+   then [[ClaimV (if l_prefer_email_to_user l then s "email" else s "user") (s "Basic ") (Some (l_basic_auth_password l))]] else [])
+  ++ (if l_pass_authorization l then [[ClaimV (s "id_token") (s "Bearer ") None]] else []).
+Proof. exact legacy_request_authorization. Qed.
+Print Assumptions c07_legacy_request_authorization.
+
+Theorem c07_legacy_response_authorization : forall l,
+  map h_values (filter is_authorization (legacy_response_headers l)) =
+  (if l_set_basic_auth l
+   then [[ClaimV (if l_prefer_email_to_user l then s "email" else s "user") (s "Basic ") (Some (l_basic_auth_password l))]] else [])
+  ++ (if l_set_authorization l then [[ClaimV (s "id_token") (s "Bearer ") None]] else []).
+Proof. exact legacy_response_authorization. Qed.
+Print Assumptions c07_legacy_response_authorization.
+
+Theorem c07_legacy_preserve_uniform : forall l,
+  Forall (fun h => h_preserve h = negb (l_skip_auth_strip_headers l)) (legacy_request_headers l).
+Proof. exact legacy_preserve_uniform. Qed.
+Print Assumptions c07_legacy_preserve_uniform.
